@@ -589,6 +589,10 @@ func (p *Parser) parseSelectResults() []ast.SelectItem {
 		if p.Token.Kind == token.TokenEOF || p.Token.Kind == "FROM" {
 			break
 		}
+		if p.Token.Kind == ";" {
+			// In a statement list, the trailing comma is followed by the terminating semicolon instead of <eof>.
+			break
+		}
 		results = append(results, p.parseSelectItem())
 	}
 	return results
